@@ -86,6 +86,9 @@ func checkC02(c *Ctx, r *Report) {
 		r.Undecided("C02.anchor:Refresh", "", "Refresh not found")
 		return
 	}
+	if c.checkLifecycleSemantics(r, c.roles(r), "C02.lifecycle-values", r.Tier == "thorough") {
+		r.Decide([]string{"C02.rebind:", "C02.result:", "C02.conflict:", "C02.validate:", "C02.all-tags:", "C02.table-readonly:", "C02.prefix-order:", "C02.anchor:"}, nil, "tag routing and validation evaluated end to end over configurations and operation sequences")
+	}
 	fns := c.refreshFuncs()
 	for _, f := range fns {
 		r.SawFunc(f)
@@ -824,6 +827,9 @@ func checkC16(c *Ctx, r *Report) {
 	r.Undecidedcl = []string{"all histories of Refresh/Destroy/log/register up to length 8 (only per-operation lifecycle typestate is decided)", "blocking under the Block policy"}
 	r.Assumptions = []string{"registration and Refresh/Destroy are not concurrent with each other (documented contract)"}
 	ro := c.roles(r)
+	if c.checkLifecycleSemantics(r, ro, "C16.lifecycle-values", r.Tier == "thorough") {
+		r.Decide([]string{"C16.nil-safe:", "C16.unbind:", "C16.once-guard:", "C16.destroy:", "C16.guards:"}, nil, "Refresh/Destroy/registration/logging evaluated over operation sequences")
+	}
 	bind := c.bindingFields()
 	r.Floor("binding fields", len(bind), 2)
 	// ---- C16.nil-safe
